@@ -45,7 +45,7 @@ class ReqWorld(World):
     name = "W-req"
 
     def __init__(self, dispatcher: bool = False, controller: bool = True, pairs: bool = True, fleets=(),
-                 requests=("r0", "r1", "r2"), cancel: int = 180, low: bool = True, name: str = "", dispatch_states=None, prestart=()):
+                 requests=("r0", "r1", "r2"), cancel: int = 180, low: bool = True, name: str = "", dispatch_states=None, prestart=(), human_shift: int = 0, drain: bool = False):
         super().__init__()
         self.pairs = pairs
         if name:
@@ -58,7 +58,16 @@ class ReqWorld(World):
         if dispatch_states:
             dconf["valid_dispatch_states"] = list(dispatch_states)  # e.g. also "dispatchtrip": vehicles en route may be re-matched
         cfg = make_config(step=60, cancel=cancel, idle_timeout=100000, dispatcher=dconf)
-        self.env = make_env(cfg, fleets=fleets)
+        schedules = None
+        if human_shift:
+            from .worlds import T0
+
+            def sched(sim, vehicle_id, _end=T0 + 60 * human_shift):  # on shift for the first `human_shift` steps only
+                return int(sim.sim_time) < _end
+
+            schedules = {"early": sched}
+            self.keep_tod = True
+        self.env = make_env(cfg, fleets=fleets, schedules=schedules)
         env = self.env
         rn = HaversineRoadNetwork(sim_h3_resolution=15)
         self.rn = rn
@@ -66,10 +75,23 @@ class ReqWorld(World):
         vf = tuple(fleets[:1])
         v0 = mk_vehicle(env, rn, "v0", S["A"], "quiet", soc=0.5, fleets=vf)
         v1 = mk_vehicle(env, rn, "v1", S["N1"], "quiet", soc=0.5, fleets=tuple(fleets[-1:]))
+        stations, bases = (s0,), ()
+        if human_shift:
+            # v0 is driven by a human whose shift ends while under way and who has nowhere to go: the home base has no plug and
+            # the world no station, so the go-home logic yields no instruction; the autonomous v1 stands a little further out
+            from .worlds import mk_base
+
+            v0 = mk_vehicle(env, rn, "v0", S["A"], "quiet", soc=0.5, fleets=vf, schedule_id="early", home_base_id="hb")
+            v1 = mk_vehicle(env, rn, "v1", S["X1"], "quiet", soc=0.5, fleets=tuple(fleets[-1:]))
+            stations, bases = (), (mk_base(rn, "hb", S["N3"], stalls=1, station_id=None),)
         vehicles = [v0, v1]
         if low:
-            vehicles.append(mk_vehicle(env, rn, "v2", S["A"], "small", energy=0.10, fleets=vf))
-        self.starts = {"init": build_sim(env, rn, vehicles=vehicles, stations=(s0,))}
+            if drain:
+                # idle draw: this vehicle's battery is emptied by ONE idle step (it then stands Idle with exactly 0 for one step)
+                vehicles.append(mk_vehicle(env, rn, "v2", S["A"], "tiny_thirsty", energy=0.02, fleets=vf))
+            else:
+                vehicles.append(mk_vehicle(env, rn, "v2", S["A"], "small", energy=0.10, fleets=vf))
+        self.starts = {"init": build_sim(env, rn, vehicles=vehicles, stations=stations, bases=bases)}
         specs = {
             "r0": {"origin": S["M1"], "destination": S["N2"]},
             "r1": {"origin": S["A"], "destination": S["M2"]},
@@ -90,9 +112,8 @@ class ReqWorld(World):
         per_vehicle = [("DispatchTrip", r) for r in self.request_specs] + [
             ("Idle",),
             ("OutOfService",),
-            ("DispatchStation", "s0", "DCFC"),
             ("Reposition", link_m),
-        ]
+        ] + ([("DispatchStation", "s0", "DCFC")] if stations else [])
         pool = [r for r in self.request_specs if self.request_specs[r].get("allows_pooling")]
         if len(pool) >= 2:
             # pooling re-plans (only accepted for a vehicle that already serves a pooling trip): the other pooling request
